@@ -175,7 +175,11 @@ def gen_case(r):
         t = Op(r.choice(["and", "or", "xor"]), t, o) if r.coin() else Op(r.choice(["and", "or", "xor"]), o, t)
     rule = RuleT(p, t)
     via_spec = r.coin(45)
-    spec = SP.rule_spec(rule, SP.Spelling(r)) if via_spec else None
+    sp = SP.Spelling(r)
+    if r.coin(50):
+        # positional (list / tuple) argument forms carrying path items are the rarer spellings: ask for them more often
+        sp.bias = {"arg-shape": 80, "arg-tuple": 60}
+    spec = SP.rule_spec(rule, sp) if via_spec else None
     return d, rule, spec, r.coin()
 
 
